@@ -62,10 +62,17 @@ func init() {
 			for i := 0; i < n; i++ {
 				sc.Sources = append(sc.Sources, SrcSpec{Mode: "sync", Script: genScript(g, 10*(i+1), 3, "CCE", false)})
 			}
-			names := stagesWhere(func(d *StageDef) bool { return coldDeterministic(d) && d.Aux == 0 })
+			names := stagesWhere(func(d *StageDef) bool { return coldDeterministic(d) })
 			name := names[g.Intn(len(names))]
 			d := catalog[name]
-			sc.Stages = []StageSpec{{Op: name, P: d.GenP(g, 3)}}
+			sc.SetInt("mains", n)
+			// auxiliary sources of the operator value (synchronous, shared by every application of it)
+			var p []int
+			for i := 0; i < d.Aux; i++ {
+				sc.Sources = append(sc.Sources, SrcSpec{Mode: "sync", Script: genScript(g, 50+10*i, 3, "CCE", false)})
+				p = append(p, len(sc.Sources)-1)
+			}
+			sc.Stages = []StageSpec{{Op: name, P: append(p, d.GenP(g, 3)...)}}
 			sc.Sub = "opvalue"
 			sc.SetInt("order", g.Intn(6))
 			sc.SetInt("seqmode", 1)
@@ -185,12 +192,27 @@ func runC12OpValue(e *Env) {
 	sc := e.Sc
 	st := sc.Stages[0]
 	d := catalog[st.Op]
-	n := len(sc.Sources)
+	n := sc.Int("mains", len(sc.Sources))
+	if n > len(sc.Sources)-d.Aux {
+		n = len(sc.Sources) - d.Aux
+	}
+	if n < 1 {
+		return
+	}
+	auxSpecs := sc.Sources[len(sc.Sources)-d.Aux:]
+	params := st.P[d.Aux:]
+	mkAux := func() []ro.Observable[int] {
+		var out []ro.Observable[int]
+		for _, sp := range auxSpecs {
+			out = append(out, e.NewSrc(sp).Obs())
+		}
+		return out
+	}
 	// reference: a separately built operator value per source
 	want := make([]string, n)
 	for i := 0; i < n; i++ {
 		s := e.NewSrc(sc.Sources[i])
-		o := d.Build(e, nil, st.P)(s.Obs())
+		o := d.Build(e, mkAux(), params)(s.Obs())
 		rec, _ := collectTrace(e, o, fmt.Sprintf("ref%d", i))
 		want[i] = rec.Trace()
 	}
@@ -201,7 +223,7 @@ func runC12OpValue(e *Env) {
 		e.Probe("unterminated-pipeline")
 		return
 	}
-	op := d.Build(e, nil, st.P) // ONE operator value
+	op := d.Build(e, mkAux(), params) // ONE operator value
 	order := perms3[sc.Int("order", 0)%6]
 	pipes := make([]ro.Observable[int], n)
 	srcs := make([]*Src, n)
@@ -238,6 +260,15 @@ func runC12OpValue(e *Env) {
 func c12Valid(sc *Scn) bool {
 	for i, s := range sc.Sources {
 		if s.Mode != "sync" && !(i == 0 && s.Mode == "timed" && sc.Family == "C12.resub" && len(sc.Sources) == 1) {
+			return false
+		}
+	}
+	if sc.Family == "C12.opvalue" {
+		if len(sc.Stages) != 1 {
+			return false
+		}
+		d := catalog[sc.Stages[0].Op]
+		if d == nil || len(sc.Sources) < d.Aux+1 || len(sc.Stages[0].P) < d.Aux {
 			return false
 		}
 	}
